@@ -36,9 +36,11 @@ def plan(tier):
 def _case(draw, unit):
     cfg = draw(xf.cfg_strategy(kinds=[unit['kind']] if unit.get('kind') else KINDS))
     C = 3 if xf.needs_three_channels(cfg) else draw(st.sampled_from([1, 2, 3]))
+    if cfg['kind'] in xf.SCAT_KINDS and draw(st.integers(0, 2)) == 0:
+        cfg['bias'] = 0.0          # the plain modulus: no bias term to hide an absolute error behind
     return {'cfg': cfg, 'N': draw(st.sampled_from([1, 2, 3])), 'C': C,
             'rx': draw(core.recipe_strategy(kinds=['gaussian', 'wide', 'wide', 'offset', 'sparse', 'ramp', 'constant'],
-                                            scales=(0, 0, 0, 6, -6))),
+                                            scales=(0, 0, 0, 6, -6, -3, -4))),
             'view': draw(st.sampled_from(VIEWS)), 'convert': draw(st.sampled_from(['none', 'double', 'float'])),
             'k': draw(st.integers(0, 10**6))}
 
@@ -166,13 +168,18 @@ def run_case(case):
     # (b) conversions
     if conv == 'float' and m64 is not None:
         mc, fc = xf.build(cfg, torch.float64)
+        if case['k'] % 2:
+            run(fc, x64, torch.float64)       # the module has already been used before it is converted
+            r.label('used_before_conversion')
         mc = mc.float()
         sd_c, sd_32 = dict(mc.state_dict()), dict(m32.state_dict())
         for k_, v in sd_32.items():
             if k_ not in sd_c or sd_c[k_].dtype != torch.float32 or not torch.equal(sd_c[k_], v):
                 r.fail('float_conversion_buffers:' + kind, '.float() of a float64-built module: %s differs from the float32-built one' % k_)
                 break
-        _, oc = run(fc, x32, torch.float32)
+        ok, oc = lib(lambda: run(fc, x32, torch.float32)[1])
+        if not ok:
+            return r.fail('float_conversion_raise:' + kind, '.float() of a float64-built module raised on float32 input: %s' % oc)
         yc = xf.per_slice(oc)
         if any(t.dtype != torch.float32 for t in oc):
             r.fail('float_conversion_dtype:' + kind, '.float() module returned %s' % [t.dtype for t in oc])
@@ -185,6 +192,9 @@ def run_case(case):
                 r.label('ulp_diff_after_conversion')
     if conv == 'double' and m32 is not None:
         mc, fc = xf.build(cfg, torch.float32)
+        if case['k'] % 2:
+            run(fc, x32, torch.float32)       # the module has already been used before it is converted
+            r.label('used_before_conversion')
         mc = mc.double()
         ok, oc = lib(lambda: run(fc, x64, torch.float64)[1])
         if not ok:
